@@ -428,10 +428,10 @@ def same(a, b):
     return same_result(norm(a), norm(b))
 
 
-def page_case(rng, doc, sel, tags=(), kind="structured", hist=None, flags=None, model=None, jopts=None):
+def page_case(rng, doc, sel, tags=(), kind="structured", hist=None, flags=None, model=None, jopts=None, data=None):
     """hist = (kind, steps) done on the source before the import; flags = cache configuration (None: random);
     model = False: judged by the specification only; jopts: options of G.judge_import"""
-    data = docs.write(doc, rng)
+    data = docs.write(doc, rng) if data is None else data      # (data given: the document written in another way, e.g. encrypted)
     hkind, steps = hist if hist is not None else ("none", [])
     g = apply_updates(dict(doc.objs), steps)
     if flags is None:
@@ -729,6 +729,21 @@ def generate(rng, tier):
         nbytes = rng.choice([rng.randrange(1, 16), rng.randrange(17, 32), 5])
         sel = [pi] if i % 2 else list(range(len(doc.pages)))
         yield unreadable_case(rng, doc, sel, num, nbytes)
+
+
+    # intact encrypted sources (R4 / AESV2, where the ciphertext is longer than the data, and R3 / RC4): streams reached through
+    # untyped references (the fonts' embedded files, a soft-mask group, a /PieceInfo stream) and typed ones are readable in the
+    # new document and their data equal the source's (finding C20-h)
+    for i in range(8 if quick else 120):
+        kind = docs.UNREADABLE_KINDS[i % len(docs.UNREADABLE_KINDS)]
+        doc = docs.gen_doc(rng, npages=rng.choice([1, 2, 3]))
+        pi, num = docs.plant_unreadable(doc, rng, kind)
+        doc.features.discard("unreadable:" + kind)
+        method = "AESV2" if i % 4 != 3 else "V2"
+        data = docs.write_encrypted(doc, rng, None, None, method)
+        sel = [pi] if i % 2 else list(range(len(doc.pages)))
+        yield page_case(rng, doc, sel, tags=["encrypted-source", "untyped-stream:" + kind], data=data, jopts={"page_entries": True},
+                        hist=rnd_page_history(rng, doc, sel, rng.choice(["none", "none", "render", "decode-all"])))
 
 
 def always(case, r):
